@@ -246,7 +246,8 @@ def go_test(pkg, run, env=None, timeout=900, race=False, wd=None, tags="verif", 
         vf = os.path.join(os.path.dirname(stallf), "stall_verdict.json")
         if os.path.exists(vf):
             v = json.load(open(vf))     # the driver had observed this before the scenario stopped making progress
-            raise ClientStall(v["sig"], v["desc"] + "\n(the scenario then never ended: virtual time could not advance)")
+            raise ClientStall(v["sig"], v["desc"] + "\n(and then a scenario never ended - goroutines that spin or never finish: " +
+                              open(stallf, errors="replace").readline().strip()[:160] + ")")
         raise classify_stall(open(stallf, errors="replace").read(), pkg, run)
     if rc != 0 and ("[build failed]" in out or "[setup failed]" in out or re.search(r"^# ", out, re.M) and "FAIL" in out and "--- FAIL" not in out and "panic:" not in out):
         raise MachineryError("harness does not build against /repo's working tree:\n" + out[-4000:])
